@@ -127,6 +127,26 @@ static std::string process(const std::string & line) {
             out = "R ok pos=" + std::to_string(static_cast<long long>(uf.m_tellg)) +
                   " good=" + (uf.good() ? "1" : "0") + " eof=" + (uf.eof() ? "1" : "0") + " |";
             ci->dump(obj, out);
+        } else if (cmd == "D") {
+            std::string hex;
+            ss >> hex;
+            std::vector<unsigned char> b = hex == "-" ? std::vector<unsigned char>() : rt_unhex("x" + hex);
+            UncompressedFile uf;
+            if (!b.empty()) uf.write(reinterpret_cast<const char *>(b.data()), static_cast<std::streamsize>(b.size()));
+            uf.setFileSize(uf.m_tellp);
+            { CapScope cap; ci->read(obj, uf); }
+            long long pos = static_cast<long long>(uf.m_tellg);
+            bool good = uf.good();
+            UncompressedFile of;
+            { CapScope cap; ci->write(obj, of); }
+            std::streamsize n = of.m_tellp;
+            of.setFileSize(n);
+            std::vector<char> buf(static_cast<size_t>(n));
+            of.read(buf.data(), n);
+            out = "D ok pos=" + std::to_string(pos) + " good=" + (good ? "1" : "0") + " ";
+            rt_hex(out, reinterpret_cast<const unsigned char *>(buf.data()), buf.size());
+            out += " |";
+            ci->dump(obj, out);
         } else if (cmd == "S") {
             apply_sets(ci, obj, ss);
             if (ci->isobj) {
